@@ -37,6 +37,7 @@ type SessSpec struct {
 	Unpaced    int    `json:"unpaced,omitempty"`  // exact-*: the first Unpaced messages are written back to back, the rest one per PaceMs
 	PaceMs     int    `json:"pace_ms,omitempty"`
 	RoundBoundMs int  `json:"round_bound_ms,omitempty"` // echo: every read of a reply must complete within this much virtual time (loss-free schedules only)
+	DeadlineMs int    `json:"deadline_ms,omitempty"` // deadline: write deadline set before every Write of the client
 	ArmAfter   int    `json:"arm_after,omitempty"` // close-race: the client socket starts stalling after this many messages
 	Variant    int    `json:"variant,omitempty"`   // close-race: 1 = client Close while the output loop stalls in WriteTo of a data datagram;
 	// 2 = the server closes first, the client's input loop stalls in WriteTo of the close session response (holding the output lock),
@@ -59,6 +60,7 @@ type Schedule struct {
 	ExtraMs     int        `json:"extra_ms"` // maximal random extra delay
 	Faults      []*Fault   `json:"faults"`
 	Sessions    []SessSpec `json:"sessions"`
+	PostCloseMs int        `json:"post_close_ms,omitempty"` // keep both Mux alive this long after the sessions were closed (late datagrams still arrive)
 	LingerMs    int        `json:"linger_ms"`  // wait between completion and Close (lets trailing acks into the case)
 	BudgetMin   int        `json:"budget_min"` // virtual minutes
 	FateSeed    uint64     `json:"fate_seed"`
@@ -450,4 +452,61 @@ func (g *gen) muxStall(up bool) *Schedule {
 	s.Sessions = []SessSpec{a, b}
 	s.BudgetMin = 5
 	return s
+}
+
+// write deadlines: the client socket stalls in WriteTo of every data datagram (the output loop holds the output lock for the
+// whole batch), the client writes multi-fragment messages each under a write deadline shorter than, around or longer than
+// that wait; timed-out Writes are retried, the session stays in use, the server answers at the end
+func (g *gen) deadline(i int) *Schedule {
+	s := g.base("deadline")
+	s.ID = "d" + s.ID[1:]
+	s.LEMode, s.LERot = 0, 0
+	s.LatencyMs = g.r.Range(1, 8)
+	s.SlowSock, s.StallMs = true, g.r.Range(8, 30)
+	s.Procs = 1
+	x := SessSpec{Shape: "deadline", Seed: g.r.U64(), MaxWrite: 8192, ReadStyle: 1, FirstWrite: g.r.Range(1, 900)}
+	x.MsgSize = g.r.Range(2, 5)*(s.MTU-104) + g.r.Range(1, 300)
+	x.Msgs = g.r.Range(5, 12)
+	x.CBytes, x.SBytes = x.FirstWrite+x.Msgs*x.MsgSize, g.r.Range(1, 40)
+	switch i % 3 {
+	case 0:
+		x.DeadlineMs = s.StallMs/2 + 1 // shorter than one stall
+	case 1:
+		x.DeadlineMs = s.StallMs * g.r.Range(1, 3) // around the time the writer waits for the lock
+	default:
+		x.DeadlineMs = s.StallMs * 12 // longer
+	}
+	s.Sessions = []SessSpec{x}
+	s.BudgetMin = 3
+	return s
+}
+
+// the client closes with data in flight and one of the data datagrams in front of the close request is lost: what the
+// server emits while it closes must not acknowledge past the hole (safety only)
+func (g *gen) closeLoss() *Schedule {
+	s := g.base("closeloss")
+	s.ID = "l" + s.ID[1:]
+	s.LEMode, s.LERot = 0, 0
+	s.LatencyMs = g.r.Range(1, 10)
+	s.LingerMs = 0
+	nf := g.r.Range(3, 6)
+	x := SessSpec{Shape: "close-loss", Seed: g.r.U64(), MaxWrite: 1 << 20, ReadStyle: 1, FirstWrite: g.r.Range(1, 900)}
+	x.SFirst = g.r.Range(1, 16)
+	x.CBytes, x.SBytes = x.FirstWrite+(nf-1)*(s.MTU-104)+g.r.Range(1, 800), x.SFirst+g.r.Range(8, 60)*1024
+	s.Sessions = []SessSpec{x}
+	s.Faults = []*Fault{{Target: "data", Side: 0, K: g.r.Intn(nf - 1), Kind: "drop"}}
+	s.BudgetMin = 2
+	return s
+}
+
+// witness of the recorded finding stateless-close-reply-reuses-sequence-number: an early ack of the client is delayed until the
+// server has closed and forgotten the session; the server's underlay answers it with a closeSessionRequest whose sequence field
+// is the ack number of that old ack - a number the server has meanwhile used for a data segment
+func (g *gen) statelessClose(delayMs int) *Schedule {
+	g.n++
+	x := SessSpec{Shape: "reqresp", Rounds: 3, CBytes: 240, SBytes: 480, MaxWrite: 200 * 1024, ReadStyle: 1, Seed: 7}
+	return &Schedule{ID: fmt.Sprintf("k%04d", g.n), Family: "statelessclose", Seed: g.seed, MTU: 1400, LatencyMs: 10,
+		Sessions: []SessSpec{x}, LingerMs: 100, PostCloseMs: 12000, BudgetMin: 2, FateSeed: 1,
+		// the first late ack makes the server's event loop come round to its 5 s session clean-up, the second one finds the session gone
+		Faults: []*Fault{{Target: "ack", Side: 0, K: 0, Kind: "delay", DelayMs: delayMs}, {Target: "ack", Side: 0, K: 1, Kind: "delay", DelayMs: delayMs + 1500}}}
 }
